@@ -106,7 +106,7 @@ def run(ctx):
     distinct = {(ob["ty"], ob.get("hex", ob.get("src"))) for ob in obs if ob["len"] > 0}
     ctx.coverage.update({
         "evaluations": len(obs), "distinct_nontrivial": len(distinct),
-        "rule": "handcrafted boundary inputs (length prefixes -2,-1,0,2^31-1; length prefixes of 16 MB .. 4 GB with no data at every Buffer.ReadBytes/ReadString site; dimension products overflowing int32 and wrapping modulo 2^64 to the array length 0, -1, 1, 4; all 256 encoding masks of DataValue and DiagnosticInfo, alone and nested; every Variant type id x scalar/array with and without data; nesting chains incl. depth 98..101 around ua.MaxNestingLevel and 3 million; 31..64 dimensions; array lengths one above the remaining bytes; extension object bodies) + %d seeded mutations (truncate, bit flip, byte, 4-byte length overwrite, trailing bytes) of valid encodings of generated values of random registered types + random bytes; distinct = distinct (type, input)" % n,
+        "rule": "handcrafted boundary inputs (length prefixes -2,-1,0,2^31-1; length prefixes of 16 MB .. 4 GB with no data at every Buffer.ReadBytes/ReadString site; dimension products overflowing int32 and wrapping modulo 2^64 to the array length 0, -1, 1, 4; all 256 encoding masks of DataValue and DiagnosticInfo, alone and nested; every Variant type id x scalar/array with and without data; nesting chains incl. depth 98..101 around ua.MaxNestingLevel and 3 million, and 1..3 / 28..51 rounds through registered structures (Variant/ExtensionObject/KeyValuePair); 31..64 dimensions; array lengths one above the remaining bytes; extension object bodies) + %d seeded mutations (truncate, bit flip, byte, 4-byte length overwrite, trailing bytes) of valid encodings of generated values of random registered types + random bytes; distinct = distinct (type, input)" % n,
         "samples": [{k: ob[k] for k in ob if k not in ("val", "hex2")} for ob in obs[:2] + obs[-2:]],
         "outcomes": outs,
         "types_hit": len({ob["ty"] for ob in obs}),
